@@ -16,6 +16,10 @@
 (*             "items" (calls, each with its outcome and the heap encoded again afterwards) and   *)
 (*             "edit" (the caller writes objs[obj][key] = cell between two calls); every call is   *)
 (*             judged against what its operands hold at that moment                                *)
+(*   sess      a SESSION (Tree.tla, "SESSIONS"): the caller's dicts, path objects (list / tuple / dotted string) and    *)
+(*             table objects (one dict / list of dicts / dictable) outlive the calls; steps get / setitem / update /   *)
+(*             items / to_table / from_table (calls) and edit / setpath / setrow (the caller's own writes); after     *)
+(*             every step ALL the caller's objects are encoded again (dicts by identity; a result joins the heap)     *)
 (* Verdict(o) = "" or the name of the first clause the observation breaks.  The result is      *)
 (* judged before the operands so that a wrong result is never hidden behind a changed operand. *)
 EXTENDS Tree, Batch
@@ -120,7 +124,52 @@ HistVerdict(objs, steps) ==
                   ELSE IF v # "" THEN "history_" \o v
                   ELSE HistVerdict(objs, Tail(steps))
 
+\* --- sessions (Tree.tla, "SESSIONS"): the caller's heap, path objects and table objects are the state; every step is
+\* judged against the state as it is at that moment: a call returns SessOut, and afterwards the caller's objects are SessNext
+\* (what they were, plus the result of update / from_table as a new object that refers to nothing the caller had) -------------
+SessCalls == {"get", "setitem", "update", "items", "to_table", "from_table"}
+SeqOfItem(it) == it[1] \o <<it[2]>>
+SessOutVerdict(st0, step) ==
+    LET call == step.call  want == SessOut(st0, call) IN
+    CASE call.kind = "get"     -> IF step.out = want THEN "" ELSE "get_leaf"
+      [] call.kind = "setitem" -> IF step.out = None THEN "" ELSE "setitem_returned"
+      [] call.kind = "update"  -> IF step.out = want THEN "" ELSE IF step.out[1] = "ref" THEN "result_is_an_operand_object" ELSE "merge_result"
+      [] call.kind = "from_table" -> IF step.out = want THEN "" ELSE "from_table_tree"
+      [] call.kind = "items"   -> IF ~IsBagOf(step.items, TItems(want)) THEN "items"
+                                  ELSE IF step.keys # [i \in 1..Len(step.items) |-> step.items[i][1]] THEN "keys_order"
+                                  ELSE IF step.values # [i \in 1..Len(step.items) |-> step.items[i][2]] THEN "values_order"
+                                  ELSE IF step.rebuilt # want \/ step.rebuilt_lists # want THEN "rebuild_inverse"
+                                  ELSE IF step.lists_after # [i \in 1..Len(step.items) |-> SeqOfItem(step.items[i])] THEN "items_argument_changed"
+                                  ELSE ""
+      [] call.kind = "to_table" -> IF step.exc # "" THEN "to_table_raised"
+                                   ELSE IF ~IsBagOf(step.rows, want) THEN "to_table_rows" ELSE ""
+      [] OTHER -> ""
+SessStepVerdict(st0, step) ==
+    LET call == step.call IN
+    IF ~SessOk(st0, call) THEN "bad_input"
+    ELSE LET v    == IF call.kind \in SessCalls THEN SessOutVerdict(st0, step) ELSE ""
+             want == SessNext(st0, call)
+         IN  IF v # "" THEN v
+             ELSE IF step.after.paths # want.paths THEN "path_argument_changed"
+             ELSE IF step.after.tabs # want.tabs THEN "table_argument_changed"
+             ELSE IF step.after.objs = want.objs THEN ""
+             ELSE IF Len(step.after.objs) # Len(want.objs) THEN "result_not_a_new_object"
+             ELSE IF call.kind \in {"setitem", "edit"}
+                  THEN LET tgt == IF call.kind = "edit" THEN call.obj ELSE call.rt IN
+                       IF step.after.objs[tgt] # want.objs[tgt] THEN (IF call.kind = "edit" THEN "bad_input" ELSE "setitem")
+                       ELSE "write_to_one_tree_changed_another"          \* a result that shares a dict with an operand
+                  ELSE "operand_object_modified"
+RECURSIVE SessVerdict(_, _)
+SessVerdict(st0, steps) ==
+    IF steps = <<>> THEN ""
+    ELSE LET v == SessStepVerdict(st0, Head(steps)) IN
+         IF v = "bad_input" THEN v
+         ELSE IF v # "" THEN "session_" \o v
+         ELSE SessVerdict(SessNext(st0, Head(steps).call), Tail(steps))
+SessInit(o) == [objs |-> o.objs, paths |-> o.paths, tabs |-> o.tabs]
+
 Verdict(o) == IF o.op = "hhist" THEN HistVerdict(o.objs, o.steps)
+              ELSE IF o.op = "sess" THEN (IF SessHeapOk(o.objs) THEN SessVerdict(SessInit(o), o.steps) ELSE "bad_input")
               ELSE IF o.op \in HeapOps THEN HeapVerdict(o) ELSE TreeVerdict(o)
 
 Init == BatchInit
